@@ -760,6 +760,58 @@ func ForwardedFieldStore(ld *ssa.UnOp, fa *ssa.FieldAddr) ssa.Value {
 			idx = i
 		}
 	}
+	// a field of a struct VALUE kept in a field (x.slot.f after x.slot = T{f: v}): the store of the whole value decides
+	if inner, ok := fa.X.(*ssa.FieldAddr); ok {
+		if _, isSt := Deref(inner.Type()).Underlying().(*types.Struct); isSt {
+			ibase := canonBase(inner.X, 0)
+			for i := idx - 1; i >= 0; i-- {
+				switch x := b.Instrs[i].(type) {
+				case *ssa.Store:
+					fa2, ok := x.Addr.(*ssa.FieldAddr)
+					if !ok {
+						continue
+					}
+					if fa2.Field == inner.Field {
+						if b2 := canonBase(fa2.X, 0); b2 == ibase || SameVal(b2, ibase) {
+							// the value stored: a composite literal built in a local, or a constructor's result
+							if ld2, isLd := x.Val.(*ssa.UnOp); isLd && ld2.Op == token.MUL {
+								if al, isAl := ld2.X.(*ssa.Alloc); isAl && len(StoresTo(al)) == 0 {
+									for _, r := range Refs(al) {
+										if fa3, isFA := r.(*ssa.FieldAddr); isFA && fa3.Field == fa.Field {
+											for _, rr := range Refs(fa3) {
+												if st3, isSt3 := rr.(*ssa.Store); isSt3 && st3.Addr == ssa.Value(fa3) {
+													return st3.Val
+												}
+											}
+										}
+									}
+								}
+							}
+							if call, isCall := x.Val.(*ssa.Call); isCall {
+								if fv := CtorFieldValue(call, fa.Field); fv != nil {
+									return fv
+								}
+							}
+							return nil
+						}
+					}
+					// a direct store into x.slot.f
+					if in2, ok := fa2.X.(*ssa.FieldAddr); ok && fa2.Field == fa.Field && in2.Field == inner.Field {
+						if b2 := canonBase(in2.X, 0); b2 == ibase || SameVal(b2, ibase) {
+							return x.Val
+						}
+					}
+				case *ssa.Call:
+					if !InfoOf(&x.Call).Builtin && !writesNoCallerState(&x.Call) {
+						return nil
+					}
+				case *ssa.Go, *ssa.Defer, *ssa.RunDefers:
+					return nil
+				}
+			}
+			return nil
+		}
+	}
 	base := canonBase(fa.X, 0)
 	for i := idx - 1; i >= 0; i-- {
 		switch x := b.Instrs[i].(type) {
